@@ -252,3 +252,87 @@ def line_form(pattern: str, flags: int = 0) -> T.Optional[Form]:
         names = dict(getattr(getattr(rx.parse(pattern, flags), 'state', None), 'groupdict', {}) or {})
         return Form(kind, dict(zip(idx, want_roles)), {i: gs[i].optional for i in idx}, bounds, len(acc) + len(rej), leader, names)   # type: ignore[arg-type]
     return None
+
+
+# ---------------------------------------------------------------------------------------------------
+# TAP numbers are ASCII decimal digits: the language of a digits group must not reach beyond [0-9]
+# ---------------------------------------------------------------------------------------------------
+_NON_ASCII_DIGITS = '٢１२௧۳'     # Arabic-Indic 2, fullwidth 1, Devanagari 2, Tamil 1, Extended Arabic-Indic 3
+
+
+def _class_accepts(op: T.Any, av: T.Any, ch: str, ascii_: bool) -> bool:
+    """Does the one-character item (IN / CATEGORY / LITERAL / ANY) accept `ch`; categories follow the ASCII flag in scope."""
+    def cat(c: T.Any) -> bool:
+        pos = {'CATEGORY_DIGIT': r'\d', 'CATEGORY_NOT_DIGIT': r'\D', 'CATEGORY_SPACE': r'\s', 'CATEGORY_NOT_SPACE': r'\S',
+               'CATEGORY_WORD': r'\w', 'CATEGORY_NOT_WORD': r'\W'}
+        if str(c) not in pos:
+            raise Undecided(f'regex category {c}')
+        return re.fullmatch(pos[str(c)], ch, re.ASCII if ascii_ else 0) is not None
+    if op is sre_c.CATEGORY:
+        return cat(av)
+    if op is sre_c.LITERAL:
+        return chr(av) == ch
+    if op is sre_c.ANY:
+        return ch != '\n'
+    if op is not sre_c.IN:
+        raise Undecided(f'regex construct {op} in a digits group')
+    neg = hit = False
+    for o2, a2 in av:
+        if o2 is sre_c.NEGATE:
+            neg = True
+        elif o2 is sre_c.LITERAL:
+            hit = hit or chr(a2) == ch
+        elif o2 is sre_c.RANGE:
+            hit = hit or a2[0] <= ord(ch) <= a2[1]
+        elif o2 is sre_c.CATEGORY:
+            hit = hit or cat(a2)
+        else:
+            raise Undecided(f'regex class item {o2} in a digits group')
+    return hit != neg
+
+
+def non_ascii_digit_groups(pattern: str, flags: int = 0) -> T.Dict[int, str]:
+    """{group index: witness character} for every digits group (see digits_bound) whose class also accepts a character outside
+    ASCII 0-9 - `\\d` / `[^\\D]` in a str pattern without the ASCII flag (global, inline `(?a)` or scoped `(?a:...)`), or an explicit
+    non-ASCII range.  A regex-language fact; int() converts every Unicode decimal digit, so such a group reads numbers the TAP
+    grammar does not contain."""
+    tree = rx.parse(pattern, flags)
+    glob = flags | int(getattr(getattr(tree, 'state', None), 'flags', 0) or 0)
+    out: T.Dict[int, str] = {}
+
+    def probe_of(items: T.Any) -> str:
+        extra = ''
+        for op, av in items:
+            if op is sre_c.IN:
+                for o2, a2 in av:
+                    if o2 is sre_c.LITERAL and a2 > 127:
+                        extra += chr(a2)
+                    elif o2 is sre_c.RANGE and a2[1] > 127:
+                        extra += chr(max(a2[0], 128)) + chr(a2[1])
+            elif op is sre_c.LITERAL and av > 127:
+                extra += chr(av)
+        return _NON_ASCII_DIGITS + extra
+
+    def walk(items: T.Any, ascii_: bool) -> None:
+        for op, av in items:
+            if op is sre_c.SUBPATTERN:
+                g, add, dele, p = av
+                a2 = (ascii_ or bool(add & re.ASCII)) and not bool(dele & re.ASCII)
+                if g is not None and digits_bound(list(p)) is not None:
+                    sub = list(list(p)[0][1][2])
+                    for ch in probe_of(sub):
+                        if _class_accepts(sub[0][0], sub[0][1], ch, a2):
+                            out[g] = ch
+                            break
+                walk(p, a2)
+            elif _is_repeat(op):
+                walk(av[2], ascii_)
+            elif op is sre_c.BRANCH:
+                for b in av[1]:
+                    walk(b, ascii_)
+            elif op in (sre_c.ASSERT, sre_c.ASSERT_NOT):
+                walk(av[1], ascii_)
+            elif str(op) == 'ATOMIC_GROUP':
+                walk(av, ascii_)
+    walk(tree, bool(glob & re.ASCII))
+    return out
